@@ -16,9 +16,10 @@ def gen_case(rng, cfg):
             none_p=cfg.get("none_p", 0.04), fail_cell_p=cfg.get("fail_cell_p", 0.0),
             handled_seq_p=cfg.get("handled_seq_p", 0.0), lam_p=cfg.get("lam_p", 0.0),
             space_p=cfg.get("space_p", 0.0), block_p=cfg.get("block_p", 0.0), via_p=cfg.get("via_p", 0.0),
-            default_p=cfg.get("default_p", 0.0))
+            default_p=cfg.get("default_p", 0.0), glob_p=cfg.get("glob_p", 0.0), trx_p=cfg.get("trx_p", 0.0))
     if cfg.get("no_try_p") and rng.random() < cfg["no_try_p"]:
         g.no_try = True
+    g.after_call_p = cfg.get("after_call_p", 0.0)
     ncells = rng.randint(cfg.get("min_cells", 2), cfg.get("max_cells", 6))
     cells, refs = g.program(ncells)
     if cfg.get("all_cached"):
@@ -31,12 +32,49 @@ def gen_case(rng, cfg):
             if rng.random() < cfg["absent_p"]:
                 c["absent"] = True
     exists = {c["id"]: not c.get("absent") for c in cells}
+    if g.glob_p:
+        cells[0]["glob"] = list(range(g.n_rn + g.n_ra, g.n_rn + g.n_ra + g.n_glob))
     ops = []
     w = cfg["weights"]
     kinds = list(w)
+    aims = cells            # the cells operations aim at: the program's, and (histories with copies) the copies made
+    n_refs = g.n_rn + g.n_ra + (g.n_glob if g.glob_p else 0)
     for _ in range(rng.randint(cfg.get("min_ops", 8), cfg.get("max_ops", 16))):
         k = rng.choices(kinds, [w[x] for x in kinds])[0]
-        c = rng.choice(cells)
+        c = rng.choice(aims)
+        if k == "copycell":
+            # Cells.copy into either space under a new name; the copy is then a cells like any other
+            src = rng.choice([x for x in aims if exists.get(x["id"], True)] or aims)
+            dst = 50 + sum(1 for o in ops if o[0] == "copycell")
+            sp = rng.randrange(2)
+            ops.append(["copycell", str(src["id"]), str(sp), str(dst)])
+            aims = aims + [dict(src, id=dst, space=sp)]
+            exists[dst] = True
+            continue
+        if k == "copyspace":
+            if any(o[0] == "copyspace" for o in ops):
+                k = "eval"
+            else:
+                ops.append(["copyspace"])
+                new = [dict(x, id=execworld.COPY_BASE + x["id"], space=3) for x in aims
+                       if int(x.get("space", 0)) == 1 and exists.get(x["id"], True)]
+                aims = aims + new
+                for x in new:
+                    exists[x["id"]] = True
+                continue
+        if k in ("shadow", "unshadow"):
+            # a reference of the name of a model-level one (or, in the copied space, of any of its own) defined in /
+            # deleted from a space
+            spaces = [0, 1] + ([3] if any(o[0] == "copyspace" for o in ops) else [])
+            sp = rng.choice(spaces)
+            ids = list(range(g.n_rn + g.n_ra, n_refs)) + (list(range(g.n_rn, g.n_rn + g.n_ra)) if sp == 3 else [])
+            if not ids:
+                k = "eval"
+            else:
+                r = rng.choice(ids)
+                ops.append(["shadow", str(r), str(sp), str(rng.randint(-1, 6))] if k == "shadow" else
+                           ["unshadow", str(r), str(sp)])
+                continue
         if k in ("delcell", "newcell"):
             # mostly a request that applies (an existing cells is deleted, a missing one created); sometimes not
             want = k == "delcell"
@@ -89,9 +127,9 @@ def gen_case(rng, cfg):
         elif k == "clearall":
             ops.append(["clearall", str(c["id"])])
         elif k == "setref":
-            ops.append(["setref", str(rng.randrange(g.n_rn + g.n_ra)), str(rng.randint(-1, 6))])
+            ops.append(["setref", str(rng.randrange(n_refs)), str(rng.randint(-1, 6))])
         elif k == "delref":
-            ops.append(["delref", str(rng.randrange(g.n_rn + g.n_ra))])
+            ops.append(["delref", str(rng.randrange(n_refs))])
         elif k == "setformula":
             # a new body of the same arity; it calls lower cells (or itself, guarded) only, like the old one
             g.cur_space = int(c.get("space", 0))
@@ -117,9 +155,23 @@ def canon_key(case_or_cells, cid, toks):
     built from the program description (independent of modelx); None when the spelling does not bind"""
     from .expr import py_bind
     cells = case_or_cells["cells"] if isinstance(case_or_cells, dict) else case_or_cells
-    c = next(x for x in cells if x["id"] == int(cid))
+    ops = case_or_cells.get("ops", []) if isinstance(case_or_cells, dict) else []
+    c = next(x for x in cells if x["id"] == origin_of(ops, int(cid)))
     pos, kw = execworld.split_args(toks)
     return py_bind(c["nparams"], c.get("defaults") or [], pos, kw)
+
+
+def origin_of(ops, cid):
+    """the cells of the program a copy (of a copy ...) was made from: it has the same signature"""
+    for _ in range(20):
+        if cid >= execworld.COPY_BASE:
+            cid -= execworld.COPY_BASE
+            continue
+        src = next((int(o[1]) for o in ops if o[0] == "copycell" and int(o[3]) == cid), None)
+        if src is None:
+            return cid
+        cid = src
+    return cid
 
 
 def canon_node(case_or_cells, cid, toks):
@@ -234,7 +286,7 @@ def _untuple(x):
 def has_catch_all(case):
     for c in case["cells"]:
         for e in subexprs(c["body"]):
-            if e[0] == "try" and e[2] in ("all", "deep"):
+            if e[0] in ("try", "trx") and e[2] in ("all", "deep"):
                 return True
     return False
 
@@ -269,7 +321,7 @@ def features(case, recs, stats):
     # which formulas handled failures of their callees themselves, and how they ended
     for rec in recs:
         h = rec["obs"].get("handled")
-        if h and rec["op"][0] == "eval":
+        if h and h[1] and rec["op"][0] == "eval":
             t = h[1].split()
             if len(t) == 4 and int(t[2]) > 0 and rec["impl"].startswith("err Formula"):
                 stats["evals_escaping_failure_after_handled_failures"] += 1
@@ -280,6 +332,8 @@ def features(case, recs, stats):
 
 def compare(case, recs, compare_obs, out):
     for k, rec in enumerate(recs):
+        if rec["model"] is None:
+            return True         # implementation-only vocabulary (execworld.impl_only): nothing to compare with
         if rec["impl"] != rec["model"]:
             out.disagree(case_json(case), k, rec["impl"], rec["model"], layer="exec:result")
             return False
@@ -365,6 +419,55 @@ def input_then_redefined_cases(finals):
                 cases.append({"cells": cells, "refs": {0: 1, 1: 2, 2: 3, 3: 4}, "n_rn": 2, "maxdepth": None,
                               "ops": [["set", "0", "=", "7"], ["eval", "1"]] + h + ev + [list(o) for o in last(R)] + ev,
                               "label": "input-then-redefined/%s/%s/ref%d" % (hit, label, R)})
+    return cases
+
+
+def copy_cases():
+    """Scenario family "a copy is a cells of its new space" (shared by C01, C06, C08; implementation-only: the Lean
+    model has no copy): `Cells.copy` into the same space under another name / into the other space, `UserSpace.copy` of
+    the child space - taken before anything was evaluated, or after the source was evaluated and holds calculated
+    values next to ASSIGNED ones (only the latter go with the copy) - then what makes the copy resolve a name
+    differently from its source: a reference of the source's space changed (copy in the same space), the copy living
+    where the name means something else or nothing, a reference of the COPIED space changed.  Copies and sources are
+    asked for assigned and for calculated elements, before and after the edit; value edits on the copy.
+    c0(x) = x * 10 + r0 (S);  c1(x) = x + r2 (Ch);  c2(x) = c1(x) + _space.parent.c0(x) + _space.r3 (Ch);
+    c3(x) = c0(x) + Ch.c2(x) (S)."""
+    P0, L = ("p", 0), (lambda i: ("lit", i))
+    cells = [
+        {"id": 0, "nparams": 1, "space": 0, "body": ("add", ("mul", P0, L(10)), ("rn", 0))},
+        {"id": 1, "nparams": 1, "space": 1, "body": ("add", P0, ("rn", 2))},
+        {"id": 2, "nparams": 1, "space": 1, "body": ("add", ("add", ("call", 1, [P0]), ("call", 0, [P0])), ("ra", 3))},
+        {"id": 3, "nparams": 1, "space": 0, "body": ("add", ("call", 0, [P0]), ("call", 2, [P0]))},
+    ]
+    for c in cells:
+        c.update(cached=True, allow_none=False)
+    inputs = [["set", "0", "1", "=", "500"], ["set", "1", "1", "=", "600"]]
+    evs = [["eval", "3", "1"], ["eval", "3", "2"], ["eval", "2", "3"]]
+    B = COPY = execworld.COPY_BASE
+    variants = {
+        # name: (copy ops, queries of the copies, an edit that separates copy and source, value edits on the copy)
+        "cell-same-space": ([["copycell", "0", "0", "50"]], [["eval", "50", "1"], ["eval", "50", "2"], ["eval", "50", "4"]],
+                            [["setref", "0", "5"]], [["set", "50", "2", "=", "7"], ["clear", "50"], ["clearat", "50", "1"]]),
+        "cell-other-space": ([["copycell", "0", "1", "50"]], [["eval", "50", "1"], ["eval", "50", "2"]],
+                             [["shadow", "0", "1", "6"]], [["clearall", "50"]]),
+        "cell-from-child": ([["copycell", "1", "0", "50"], ["copycell", "2", "0", "51"]],
+                            [["eval", "50", "1"], ["eval", "50", "2"], ["eval", "51", "2"]],
+                            [["shadow", "2", "0", "4"]], [["set", "50", "2", "=", "8"], ["eval", "50", "2"]]),
+        "space": ([["copyspace"]], [["eval", str(B + 1), "1"], ["eval", str(B + 1), "2"], ["eval", str(B + 2), "2"],
+                                    ["eval", str(B + 2), "3"]],
+                  [["shadow", "2", "3", "9"]], [["set", str(B + 1), "2", "=", "70"], ["eval", str(B + 2), "2"],
+                                                 ["clear", str(B + 1)], ["clearall", str(B + 2)]]),
+        "space-then-cell": ([["copyspace"], ["copycell", str(B + 1), "3", "50"]],
+                            [["eval", "50", "1"], ["eval", "50", "3"], ["eval", str(B + 2), "3"]],
+                            [["shadow", "2", "3", "9"], ["shadow", "3", "3", "1"]], [["clearat", "50", "1"]]),
+    }
+    cases = []
+    for name, (copy, asks, edit, vedits) in variants.items():
+        for when in ("after-evaluation", "before-evaluation", "inputs-only"):
+            pre = {"after-evaluation": inputs + evs, "before-evaluation": [], "inputs-only": inputs}[when]
+            ops = pre + copy + asks + evs + edit + asks + evs + vedits + asks + evs
+            cases.append({"cells": [dict(c) for c in cells], "refs": {0: 1, 1: 2, 2: 3, 3: 4}, "n_rn": 2,
+                          "maxdepth": None, "ops": [list(o) for o in ops], "label": "copies/%s/%s" % (name, when)})
     return cases
 
 
